@@ -196,10 +196,13 @@ class C05(common.Prop):
                    "CPython struct / numpy float32 views as in base/F32.v; NaN payloads compared as one word"]
 
     def translate(self):
-        return translate_c05.gen()
+        g = dict(translate_c05.gen())
+        import translate_py
+        g.update(dict(translate_py.codec_gen()))       # the Python reader this property compares parsePose with
+        return g
 
     def translate_outputs(self):
-        return ["gen/Gen_C05.v"]
+        return ["gen/Gen_C05.v", "gen/Gen_Codec.v"]
 
     def setup(self):
         self.node = None
